@@ -46,7 +46,9 @@ type wrapVal struct {
 	cause error
 }
 
-func (e wrapVal) Error() string { return fmt.Sprintf("level %d run failed (value type): %v", e.Level, e.cause) }
+func (e wrapVal) Error() string {
+	return fmt.Sprintf("level %d run failed (value type): %v", e.Level, e.cause)
+}
 func (e wrapVal) Unwrap() error { return e.cause }
 
 type multiErr struct {
@@ -54,7 +56,9 @@ type multiErr struct {
 	errs  []error
 }
 
-func (e *multiErr) Error() string   { return fmt.Sprintf("level %d run failed (several): %v", e.Level, e.errs) }
+func (e *multiErr) Error() string {
+	return fmt.Sprintf("level %d run failed (several): %v", e.Level, e.errs)
+}
 func (e *multiErr) Unwrap() []error { return e.errs }
 
 var wrapStyles = []string{"pointer-type", "value-type", "%w", "two-%w", "join-cause-first", "join-cause-last", "unwrap-slice-type", "three-layers"}
